@@ -9,7 +9,7 @@ one() {
   case "$key" in C19-A2) ids="$id C16";; C09-B) ids="$id C04";; esac
   [ -f "$d/checks.txt" ] && ids=$(cat "$d/checks.txt")
   p="$d/patch.diff"
-  res=$(VERIF_WORKERS=6 tools/try_mutant_wt.sh "$p" $ids 2>&1 | grep -E "^(VIOLATION|patch does not apply)" | awk '{print $1,$2}' | sort | uniq -c | tr '\n' ';')
+  res=$(VERIF_WORKERS=6 tools/try_mutant_wt.sh "$p" $ids 2>&1 | grep -a -E "^(VIOLATION|patch does not apply)" | awk '{print $1,$2}' | sort | uniq -c | tr '\n' ';')
   echo "$key: ${res:-MISSED}"
 }
 export -f one
